@@ -2,7 +2,8 @@
 //! Serialize/Deserialize) under hand-written schemas: structs, enums as unions, Option, maps, Vec,
 //! tuples on arrays, newtype structs, recursive types, borrowed &str / &[u8] pointing into the input; an enum with a
 //! symbol called `Null` under Option / Vec / map; optional fields left out by the Serialize impl (skip_serializing_if)
-//! at every position; a union of named types that share their short name.
+//! at every position; a union of named types that share their short name; Option<enum> over unions that are not
+//! [null,T] (two non-null branches, one branch, three or more branches with or without null).
 //! Values come from a small deterministic generator (boundary values first). Every value is also serialized through
 //! writers that take at most k bytes per `write` call and into exact-size / too-small slices (same bytes / Err).
 
@@ -321,6 +322,93 @@ fn log(r: &mut Rng) -> Log {
 	Log { items: (0..r.below(5)).map(|_| meas(r)).collect(), last: meas(r) }
 }
 
+// positions the Rust side keeps optional although the schema's union is not [null,T]: Option<enum of the branches> over
+// two non-null branches (leaf kinds the deserializer could mistake for a variant identifier: string, long, int, bytes,
+// enum, fixed; and records), one branch, three branches with and without null
+#[derive(Serialize, Deserialize, Debug, PartialEq, Clone)]
+enum StrOrLong {
+	String(String),
+	Long(i64),
+}
+#[derive(Serialize, Deserialize, Debug, PartialEq, Clone)]
+enum IntOrSuit {
+	Int(i32),
+	Suit(Suit),
+}
+#[derive(Serialize, Deserialize, Debug, PartialEq, Clone)]
+enum BytesOrFx {
+	#[serde(with = "serde_bytes")]
+	Bytes(Vec<u8>),
+	#[serde(with = "serde_bytes")]
+	Fx(Vec<u8>),
+}
+#[derive(Serialize, Deserialize, Debug, PartialEq, Clone)]
+enum RectOrBool {
+	Rect(Rect),
+	Boolean(bool),
+}
+#[derive(Serialize, Deserialize, Debug, PartialEq, Clone)]
+enum OnlyStr {
+	String(String),
+}
+#[derive(Serialize, Deserialize, Debug, PartialEq, Clone)]
+enum Three {
+	Long(i64),
+	String(String),
+	Suit(Suit),
+}
+#[derive(Serialize, Deserialize, Debug, PartialEq, Clone)]
+struct Opts {
+	a: Option<StrOrLong>,
+	b: Option<IntOrSuit>,
+	c: Option<BytesOrFx>,
+	d: Option<RectOrBool>,
+	e: Option<OnlyStr>,
+	f: Option<Three>,
+	g: Option<Three>,
+	h: Vec<Option<StrOrLong>>,
+	i: BTreeMap<String, Option<IntOrSuit>>,
+	tail: i32,
+}
+const STR_OR_LONG: &str = r#"["string","long"]"#;
+const LONG_OR_STR: &str = r#"["long","string"]"#;
+const OPTS: &str = r#"{"type":"record","name":"Opts","fields":[{"name":"a","type":["string","long"]},{"name":"b","type":["int",{"type":"enum","name":"Suit","symbols":["Hearts","Spades","Clubs"]}]},{"name":"c","type":[{"type":"fixed","name":"Fx","size":3},"bytes"]},{"name":"d","type":[{"type":"record","name":"Rect","fields":[{"name":"w","type":"int"},{"name":"h","type":"int"}]},"boolean"]},{"name":"e","type":["string"]},{"name":"f","type":["long","string","Suit"]},{"name":"g","type":["string","null","Suit","long"]},{"name":"h","type":{"type":"array","items":["long","string"]}},{"name":"i","type":{"type":"map","values":["Suit","int"]}},{"name":"tail","type":"int"}]}"#;
+fn str_or_long(r: &mut Rng) -> StrOrLong {
+	if r.below(2) == 0 {
+		StrOrLong::String(r.string())
+	} else {
+		StrOrLong::Long(r.i64())
+	}
+}
+fn int_or_suit(r: &mut Rng) -> IntOrSuit {
+	if r.below(2) == 0 {
+		IntOrSuit::Int(r.i32())
+	} else {
+		IntOrSuit::Suit(suit(r))
+	}
+}
+fn three(r: &mut Rng) -> Three {
+	match r.below(3) {
+		0 => Three::Long(r.i64()),
+		1 => Three::String(r.string()),
+		_ => Three::Suit(suit(r)),
+	}
+}
+fn opts(r: &mut Rng) -> Opts {
+	Opts {
+		a: Some(str_or_long(r)),
+		b: Some(int_or_suit(r)),
+		c: Some(if r.below(2) == 0 { BytesOrFx::Bytes(r.bytes()) } else { BytesOrFx::Fx((0..3).map(|_| r.next() as u8).collect()) }),
+		d: Some(if r.below(2) == 0 { RectOrBool::Rect(Rect { w: r.i32(), h: r.i32() }) } else { RectOrBool::Boolean(r.below(2) == 1) }),
+		e: Some(OnlyStr::String(r.string())),
+		f: Some(three(r)),
+		g: if r.below(4) == 0 { None } else { Some(three(r)) },
+		h: (0..r.below(4)).map(|_| Some(str_or_long(r))).collect(),
+		i: (0..r.below(4)).map(|_| (r.string(), Some(int_or_suit(r)))).collect(),
+		tail: r.i32(),
+	}
+}
+
 fn within(outer: &[u8], p: *const u8, len: usize) -> bool {
 	let (a, b) = (outer.as_ptr() as usize, outer.as_ptr() as usize + outer.len());
 	let q = p as usize;
@@ -400,8 +488,15 @@ pub fn run(seed: u64, n: usize) -> Result<usize, String> {
 	let poll_s: serde_avro_fast::Schema = POLL.parse().map_err(|e| format!("schema Poll: {e}"))?;
 	let sparse_s: serde_avro_fast::Schema = SPARSE.parse().map_err(|e| format!("schema Sparse: {e}"))?;
 	let log_s: serde_avro_fast::Schema = LOG.parse().map_err(|e| format!("schema Log: {e}"))?;
+	let sl_s: serde_avro_fast::Schema = STR_OR_LONG.parse().map_err(|e| format!("schema [string,long]: {e}"))?;
+	let ls_s: serde_avro_fast::Schema = LONG_OR_STR.parse().map_err(|e| format!("schema [long,string]: {e}"))?;
+	let opts_s: serde_avro_fast::Schema = OPTS.parse().map_err(|e| format!("schema Opts: {e}"))?;
 	let mut count = 0;
 	for _ in 0..n {
+		rt_owned(&sl_s, &Some(str_or_long(&mut r)), "Option<StrOrLong> on [string,long]")?;
+		rt_owned(&ls_s, &Some(str_or_long(&mut r)), "Option<StrOrLong> on [long,string]")?;
+		rt_owned(&opts_s, &opts(&mut r), "Opts")?;
+		count += 3;
 		rt_owned(&tri_opt_s, &opt_tri(&mut r), "Option<Tri>")?;
 		rt_owned(&poll_s, &poll(&mut r), "Poll")?;
 		rt_owned(&sparse_s, &sparse(&mut r), "Sparse")?;
